@@ -61,7 +61,7 @@ CHECK_DEADLOCK FALSE
 
 # ------------------------------------------------------------------ children
 
-GEN_CHILD = r"""
+GEN_CHILD = gen_cdef.BUILD_SRC + r"""
 import sys, json, hashlib, io, os, warnings, contextlib
 warnings.simplefilter("ignore")
 import cffi
@@ -71,9 +71,7 @@ tmpd = job["tmp"]
 for inp in job["inputs"]:
     for rep in range(1, job["reps"] + 1):
         for sink in ("path", "filelike"):
-            ffi = cffi.FFI()
-            ffi.cdef(inp["cdef"])
-            ffi.set_source(inp["modname"], inp["preamble"])
+            ffi = build_ffi(inp)
             emit = ffi.emit_c_code if inp["preamble"] is not None else ffi.emit_python_code
             with contextlib.redirect_stdout(io.StringIO()):
                 if sink == "path":
@@ -87,6 +85,20 @@ for inp in job["inputs"]:
                     data = f.getvalue().encode("utf-8")
             out.append({"id": inp["id"], "rep": rep, "sink": sink, "digest": hashlib.sha256(data).hexdigest()})
 json.dump(out, open(sys.argv[2], "w"))
+"""
+
+IDEM_CHILD = gen_cdef.BUILD_SRC + r"""
+import sys, json, os, warnings
+warnings.simplefilter("ignore")
+from cffi import recompiler
+job = json.load(open(sys.argv[1]))
+inp = job["input"]
+ffi = build_ffi(inp)
+if inp["preamble"] is not None:
+    r = recompiler.make_c_source(ffi, inp["modname"], inp["preamble"], job["target"])
+else:
+    r = recompiler.make_py_source(ffi, inp["modname"], job["target"])
+sys.stdout.write("RET %r\\n" % (r,))
 """
 
 AW_CHILD = r"""
@@ -191,7 +203,8 @@ def relevant_points(calls, lo, hi, target):
             break
     if first is None:
         return []
-    return list(range(first, hi + 1))       # hi = end marker: "crash right after the last step"
+    # hi = end marker: "crash right after the last step"; memory mappings are not steps of the write path
+    return [i for i in range(first, hi + 1) if calls[i][0] not in ("mmap", "munmap", "mremap", "brk", "madvise")]
 
 
 def ordinal(calls, i):
@@ -394,6 +407,48 @@ def project(S):
     return {"target": t, "tmp": tmp}
 
 
+def cross_process_idempotence(ctx, pool, inps):
+    """one process generates the file, processes with other hash seeds regenerate it: the content is identical, so the
+    file must stay untouched and the call must report 'not updated' (clauses return / untouched-mtime of the ideal)"""
+    child = os.path.join(ctx.tmp, "idem_child.py")
+    with open(child, "w") as f:
+        f.write(IDEM_CHILD)
+
+    def one(inp):
+        d = os.path.join(ctx.tmp, "idem_" + inp["id"])
+        os.makedirs(d)
+        target = os.path.join(d, "out" + (".c" if inp["preamble"] is not None else ".py"))
+        jp = core.write_json(os.path.join(d, "job.json"), {"input": inp, "target": target})
+        out = []
+        first = None
+        for seed in ("1", "2", "3", "random"):
+            st0 = os.stat(target) if os.path.exists(target) else None
+            r = subprocess.run([core.PY, child, jp], capture_output=True, text=True, env=core.sub_env(PYTHONHASHSEED=seed),
+                               timeout=600)
+            m = re.search(r"RET (True|False)", r.stdout)
+            if r.returncode != 0 or not m:
+                raise core.MachineryError("idempotence child failed: " + r.stderr[-1500:])
+            with open(target, "rb") as f:
+                data = f.read()
+            if first is None:
+                first = data
+                os.utime(target, ns=(10 ** 18, 10 ** 18))
+                continue
+            st1 = os.stat(target)
+            same = st0 is not None and (st1.st_mtime_ns, st1.st_ino) == (st0.st_mtime_ns, st0.st_ino)
+            out.append((seed, m.group(1) == "True", "new" if data == first else "partial", same))
+        return inp, len(first), out
+    traces, metas = [], []
+    for inp, n, out in pool.map(one, inps):
+        for seed, updated, cls, same in out:
+            traces.append({"env": {"old": "same", "newlen": n}, "pre": [],
+                           "events": [{"ev": "ret", "updated": updated}, {"ev": "final", "cls": cls, "mtime_same": same}]})
+            metas.append({"kind": "cross-process(seed %s after seed 1)" % seed, "old": "same", "input": inp["id"],
+                          "shape": inp.get("shape"), "updated": updated, "final": cls, "mtime_same": same})
+            ctx.case(("idem", inp["id"], seed))
+    return traces, metas
+
+
 def compile_case(ctx, rng):
     """ffi.compile() writes the same C text as emit_c_code() and leaves it untouched the second time"""
     import cffi
@@ -458,7 +513,7 @@ def run(ctx):
 
     # ---------------------------------------------------------------- (a) determinism
     rng = ctx.rng
-    ninputs = 24 if quick else 500
+    ninputs = 16 if quick else 500
     inputs = []
     for i in range(ninputs):
         fl = "api" if i % 2 == 0 else "abi"
@@ -469,6 +524,15 @@ def run(ctx):
             cdef = gen_cdef.gen(rng, rng.randint(2, 30), fl)
         inputs.append({"id": "i%d" % i, "cdef": cdef, "modname": rng.choice(["m%d", "pkg.m%d", "a.b.c%d"]) % i,
                        "preamble": gen_cdef.preamble(rng) if fl == "api" else None})
+    # FFIs that include 1-4 other FFIs (chains, siblings, diamonds), both targets
+    inc_inputs = []
+    shapes = list(gen_cdef.SHAPES)
+    for k in range(len(shapes) * 2 if quick else 60):
+        fl = "api" if k % 2 == 0 else "abi"
+        inp = gen_cdef.gen_includes(rng, fl, shapes[(k // 2) % len(shapes)], "q%d" % k)
+        inp["id"] = "inc%d" % k
+        inc_inputs.append(inp)
+    inputs += inc_inputs
     child = os.path.join(ctx.tmp, "gen_child.py")
     with open(child, "w") as f:
         f.write(GEN_CHILD)
@@ -528,11 +592,34 @@ def run(ctx):
     ctx.sample({"kind": "strace trace of the real _make_c_or_py_source", "old": scenarios[2].old,
                 "events": traces[2]["events"]}, limit=1)      # scenario 2 = first file, old content differs
 
+    def count_rel(calls, lo, upto, name):
+        return sum(1 for c in calls[lo + 1:upto + 1] if c[0] == name)
+
     def kill_run(job):
+        """kill the child on entry of system call i of the clean run.  strace counts invocations per system call from
+        process start; the number before the marker can differ slightly between runs (memory mappings, caches), so the
+        hit is verified relative to the marker and the ordinal corrected once if needed"""
         sc, cres, i = job
         name, ordn = ordinal(cres["calls"], i)
-        res = sc.run(aw_child, inject=(name, ordn))
-        res["want_call"] = cres["calls"][i]
+        clo, _ = window(cres["calls"])
+        want_rel = count_rel(cres["calls"], clo, i, name)
+        res = None
+        for attempt in range(3):
+            res = sc.run(aw_child, inject=(name, ordn))
+            lo, _ = window(res["calls"])
+            res["hit"] = bool(res["killed"] and lo is not None and res["calls"] and res["calls"][-1][0] == name
+                              and res["calls"][-1][2] == "?" and count_rel(res["calls"], lo, len(res["calls"]) - 1, name) == want_rel)
+            if res["hit"] or lo is None:
+                break
+            before_clean = sum(1 for c in cres["calls"][:clo] if c[0] == name)
+            before_here = sum(1 for c in res["calls"][:lo] if c[0] == name)
+            if before_here == before_clean and res["killed"]:
+                break
+            if not res["killed"]:
+                # the run finished: count from its complete log
+                ordn = before_here + want_rel
+            else:
+                ordn = before_here + want_rel
         res["index"] = i
         return res
     kills = list(pool.map(kill_run, kill_jobs))
@@ -540,11 +627,12 @@ def run(ctx):
     killmap = {}
     for (sc, cres, i), res in zip(kill_jobs, kills):
         lo, _ = window(res["calls"])
-        clo, _ = window(cres["calls"])
-        ok = (res["killed"] and lo == clo and res["calls"] and res["calls"][-1][0] == cres["calls"][i][0]
-              and res["calls"][-1][2] == "?" and len(res["calls"]) == i + 1)
+        ok = res.get("hit", False)
         if not ok:
             skipped += 1
+            if os.environ.get("C23_DEBUG"):
+                print("MISS", sc.sid, i, cres["calls"][i][:2], "| killed", res["killed"], "lo", lo, clo, "n", len(res["calls"]),
+                      "last", res["calls"][-1] if res["calls"] else None, res["rc"], res["stderr"][-200:])
             continue
         killmap[(sc.sid, i)] = res
         tr = trace_of(sc, res, False)
@@ -624,11 +712,9 @@ def run(ctx):
     for inp in inputs:                                     # the checking process itself
         for rep in (1, 2):
             for sink in ("path", "filelike"):
-                ffi = cffi.FFI()
                 with warnings.catch_warnings():
                     warnings.simplefilter("ignore")
-                    ffi.cdef(inp["cdef"])
-                ffi.set_source(inp["modname"], inp["preamble"])
+                    ffi = gen_cdef.build_ffi(inp)
                 emit = ffi.emit_c_code if inp["preamble"] is not None else ffi.emit_python_code
                 with contextlib.redirect_stdout(io.StringIO()):
                     if sink == "path":
@@ -642,6 +728,9 @@ def run(ctx):
                         data = fh.getvalue().encode("utf-8")
                 obs[inp["id"]].append({"seed": "inproc", "rep": rep, "sink": sink,
                                        "digest": hashlib.sha256(data).hexdigest()})
+    # ---------------------------------------------------------------- idempotence across processes / hash seeds
+    idem_traces, idem_metas = cross_process_idempotence(ctx, pool, [x for x in inc_inputs if len(x["incs"]) >= 2][:4 if quick else 24])
+    validate_traces(ctx, idem_traces, idem_metas)
     # ---------------------------------------------------------------- ffi.compile(): same text, idempotent (thorough)
     if not quick:
         compile_case(ctx, rng)
